@@ -529,6 +529,9 @@ def run_e3(prop, hs):
     return out
 
 
+SIDE_CHUNK = 1500
+
+
 def run_e4(prop, hs, tier, engine="e4"):
     import sys
     sys.path.insert(0, os.path.join(ROOT, "mir2smt"))
@@ -552,7 +555,14 @@ def run_e4(prop, hs, tier, engine="e4"):
             out.append(_side_result(h, "inconclusive", "E4: empty program family", 0, None, 0, []))
             continue
         try:
-            res, dt = e4.run(progs)
+            # bounded memory: a family is decided in chunks (the queries of 10 000 programs held at once took 28 GB)
+            res, dt = [], 0.0
+            for k in range(0, len(progs), SIDE_CHUNK):
+                part, d = e4.run(progs[k:k + SIDE_CHUNK])
+                for r in part:
+                    r.pop("_nodes", None)
+                res += part
+                dt += d
         except Exception as e:
             out.append(_side_result(h, "inconclusive", "E4 driver error: %r" % e, 0, None, 0, []))
             continue
